@@ -177,7 +177,10 @@ class MessagePackDocument(HierDictDocument):
 
         mrs, = ctx.in_body_doc.keys()
         if not six.PY2 and isinstance(mrs, bytes):
-            mrs = mrs.decode(self.key_encoding)
+            try:
+                mrs = mrs.decode(self.key_encoding)
+            except UnicodeDecodeError as e:
+                raise ValidationError(mrs, "%%r: %r" % (e,))
 
         return '{%s}%s' % (self.app.interface.get_tns(), mrs)
 
